@@ -462,6 +462,20 @@ theorem roundtrip_rows (x : FArr Rat) (hit : ∀ d ∈ x.dims, d.items.Nodup) :
     simpa using hval
   · exact absurd (hpos idx hidx) (hno _ (List.mem_map_of_mem (f := fun idx => (labelsOf x.dims idx, some (x.values.get idx))) hidx))
 
+/-! ## the source as the model reads it (regenerated on every run by `translate/gen_lean.py`) -/
+
+/-- **the converter of the current tree runs the stages the model transcribes, in that order, with the
+repairs D14, D16, D16b, D19, D20, D26 in place** (a tree on which this fails is modelled as it is —
+the flags switch the model — and the check then looks for a failing input) -/
+theorem source_converter_as_modelled :
+    Gen.converterSteps = ["_reset_non_default_index", "_determine_format", "_df_to_long_format",
+      "_check_missing_dim_columns", "_convert_type", "_sort_columns", "_check_data_complete"] ∧
+    Gen.determineFormatSteps = ["_get_dim_columns_by_name_or_letter", "_check_if_first_row_are_items",
+      "_check_for_dim_columns_by_items", "_check_value_columns"] ∧
+    Gen.firstRowGuard = true ∧ Gen.byItemsSkipsIdentified = true ∧ Gen.byItemsContinues = true ∧
+    Gen.valueColsKeepType = true ∧ Gen.sameItemsRejectsFractions = true ∧ Gen.fillIndexCasts = ["np.intp"] := by
+  decide
+
 /-! ## non-vacuity -/
 
 def exDims : DimSet :=
